@@ -92,9 +92,15 @@ package activations
 // C14: along the configured dimension d, exp(x) divided by the sum of exp(x) over the fibre through the position
 //@ func Softmax.forward
 //@   requires tinv(x) && published(x) && 0 <= c.dim && c.dim < rank(x)
-//@   uses projInb, delInbUnsq, unsqRed
+//@   wants unsq
 //@   usesdef sumPos
 //@   witness e = x
+//@   have redShape(ver(s, 1), x, c.dim) && isUnsqOf(s, ver(s, 1), c.dim) && bshape(res0, x, s)
+//@   have rank(s) == rank(x) && forall(k, 0, rank(x), dim(s, k) == dim(x, k) || dim(s, k) == 1) && bcompat(x, s) @uses unsqRed
+//@   have sameShape(res0, x) @uses bshapeLeft
+//@   have forallJ(J, imp(inb(res0, J), el(res0, J) == el(x, J) / el(s, proj(s, res0, J)))) @uses projSame
+//@   have forallJ(J, imp(inb(res0, J), el(s, proj(s, res0, J)) == el(ver(s, 1), del(J, c.dim)))) @uses unsqProjEl
+//@   have forallJ(J, imp(inb(res0, J), inb(ver(s, 1), del(J, c.dim)))) @uses delInbRed
 //@   ensures[C14] err == nil && y != nil && sameShape(y, old(x))
 //@   ensures[C14] existsT(e, sameShape(e, old(x)) && forallJ(J, imp(inb(e, J), el(e, J) == exp(el(old(x), J))))
 //@                && forallJ(J, imp(inb(y, J), el(y, J) == el(e, J) / fsum(e, c.dim, del(J, c.dim)))))
